@@ -18,7 +18,7 @@ from . import tape as T
 
 VERIF = os.path.dirname(os.path.dirname(os.path.abspath(__file__)))
 NPROC = int(os.environ.get('VERIF_NPROC', '0')) or min(16, os.cpu_count() or 1)
-CHILD_TIMEOUT = float(os.environ.get('VERIF_CHILD_TIMEOUT', '60'))
+CHILD_TIMEOUT = float(os.environ.get('VERIF_CHILD_TIMEOUT', '30'))
 
 
 def run_seed(base_seed, prop_id, index):
@@ -348,6 +348,8 @@ def shrink(prop, case, sched, cls, budget=250, log=None):
 
 def write_replay(prop_id, seed, case, sched, res, cls, kind='found'):
     d = os.path.join(VERIF, 'replays', kind)
+    if os.environ.get('VERIF_EVIDENCE_DIR'):     # mutant runs: keep /verif clean
+        d = os.path.join(os.environ['VERIF_EVIDENCE_DIR'], 'replays')
     os.makedirs(d, exist_ok=True)
     path = os.path.join(d, f'{prop_id}-{seed}.json')
     viol = [v for v in res['violations'] if vclass(v) == cls]
